@@ -178,7 +178,9 @@ OBL = [
          requires=["GF-LIMITS", "params-only-from-decoder", "T-LIMIT-HEIGHT", "auth-path-loop-runs-to-height"]),
     dict(id="limit-hss-signature", fn=r"^hss::signing::HssSignature::to_binary_representation$", site=r"call:tinyvec::arrayvec::ArrayVec::extend_from_slice", operand=None,
          reason="level word + one signed public key per upper level + the message signature; each part is bounded by the formula lengths of its own level's limits, whose sum is the buffer's capacity and fits the u16 length field",
-         requires=["GF-LIMITS", "params-only-from-decoder", "T-LIMIT-SIGLEN", "expansion-one-key-per-level"]),
+         requires=["GF-LIMITS", "params-only-from-decoder", "T-LIMIT-SIGLEN", "expansion-one-key-per-level"],
+         # builds whose capacity exceeds the u16 length field: the signing core refuses parameter lists whose exact signature length exceeds 65535
+         alt=["GF-LIMITS", "params-only-from-decoder", "T-LIMIT-SIGCAP", "GF-SIGLEN-U16", "T-SIGLEN-FORMULA", "expansion-one-key-per-level"]),
 
     # ---------------- fast-verify search (feature fast_verify; C15) -----------------------------------------------------
     dict(id="fv-eval", fn=r"^lm_ots::parameters::LmotsParameter::fast_verify_eval$", site=r".", operand=None,
